@@ -58,7 +58,8 @@ def Lit.typeName (l : Lit) : String :=
 
 inductive Expr where
   | lit (l : Lit)
-  | path (p : Path) (span : Span)                       -- `Expr::Path` (span of the whole expression)
+  | path (p : Path) (span : Span)                       -- `Expr::Path` without qself
+  | qpath (p : Path) (toks : String) (span : Span)      -- `Expr::Path` with a qualified self; `p` = its `.path`
   | group (e : Expr) (span : Span)                      -- invisible group
   | array (es : List Expr) (toks : String) (span : Span)
   | other (kind : String) (toks : String) (span : Span) -- kind as named by `unexpected_expr_type`
@@ -68,12 +69,14 @@ namespace Expr
 def span : Expr → Span
   | lit l => l.span
   | path _ s => s
+  | qpath _ _ s => s
   | group _ s => s
   | array _ _ s => s
   | other _ _ s => s
 def kindName : Expr → String
   | lit _ => "lit"
   | path _ _ => "path"
+  | qpath _ _ _ => "path"
   | group _ _ => "group"
   | array _ _ _ => "array"
   | other k _ _ => k
@@ -127,3 +130,13 @@ def Err.unsupportedFormat (f : String) : Err := Err.new (.unexpectedFormat f)
 def Err.unknownValue (v : String) : Err := Err.new (.unknownValue v)
 /-- `Error::custom` -/
 def Err.custom (s : String) : Err := Err.new (.custom s)
+
+/-- printed tokens of an expression (`to_token_stream().to_string()`); an invisible group prints
+    as its content -/
+def Expr.toks : Expr → String
+  | .lit l => l.toks
+  | .path p _ => p.toks
+  | .qpath _ t _ => t
+  | .group g _ => g.toks
+  | .array _ t _ => t
+  | .other _ t _ => t
